@@ -264,3 +264,153 @@ def from_exponents(rnd, byname, exps):
         i = rnd.randrange(len(parts) - 1)
         parts[i:i + 2] = [Tree("mul", [parts[i], parts[i + 1]])]
     return parts[0]
+
+
+# -------------------------------------------------------------------------------------------------
+# label grammar model (docs/reference/unit.md + unit label section): structural, order-agnostic
+
+UNLABELED_SCALE = "(UNLABELED SCALE FACTOR)"
+
+
+def mag_label(m):
+    """Label of a scale factor: integer digits, `n / d` for rationals, marker otherwise.
+    Returns (text, has_exposed_slash)."""
+    if model.mag_is_integer(m) or not m:
+        v = model.mag_to_fraction(m)
+        if v < 1 << 64:
+            return str(int(v)), False
+        return UNLABELED_SCALE, False
+    if model.mag_is_rational(m):
+        num = model.norm({b: e for b, e in m.items() if e > 0})
+        den = model.norm({b: -e for b, e in m.items() if e < 0})
+        return "%s / %s" % (mag_label(num)[0], mag_label(den)[0]), True
+    return UNLABELED_SCALE, False
+
+
+def exp_suffix(e, solo):
+    """Suffix for exponent e (already positive inside quotient sides unless solo)."""
+    if e == 1:
+        return ""
+    if e.denominator == 1:
+        n = int(e)
+        return "^%d" % n if n >= 0 else "^(%d)" % n
+    return "^(%d/%d)" % (e.numerator, e.denominator)
+
+
+def product_label(struct):
+    """struct: {base text: Fraction exponent} -> label text (one admissible factor order)."""
+    items = sorted(struct.items())
+    if len(items) == 1:
+        b, e = items[0]
+        return b + exp_suffix(e, True)  # a solo power keeps its sign: x^(-1)
+    num = [(b, e) for b, e in items if e > 0]
+    den = [(b, -e) for b, e in items if e < 0]
+
+    def side(fs, parens):
+        s = " * ".join(b + exp_suffix(e, False) for b, e in fs)
+        return "(%s)" % s if parens and len(fs) > 1 else s
+
+    if not num and not den:
+        return ""
+    if not den:
+        return side(num, False)
+    if not num:
+        return "1 / " + side(den, True)
+    return side(num, True) + " / " + side(den, True)
+
+
+def structure(t, marker):
+    """{base text: exponent} of the unit type the tree denotes (powers distribute over products,
+    nested anonymous scalings merge, a total scale factor of 1 disappears)."""
+    k = t.kind
+    if k == "atom":
+        return {(t.atom.label if t.atom.label is not None else marker): Fraction(1)}
+    if k == "mul":
+        return model.mul(structure(t.kids[0], marker), structure(t.kids[1], marker))
+    if k == "div":
+        return model.div(structure(t.kids[0], marker), structure(t.kids[1], marker))
+    if k == "pow":
+        return model.power(structure(t.kids[0], marker), t.n)
+    if k == "root":
+        return model.power(structure(t.kids[0], marker), Fraction(1, t.n))
+    if k == "prefix":
+        return {t.prefix[1]["symbol"] + product_label(structure(t.kids[0], marker)): Fraction(1)}
+    if k == "scale":
+        m = t.mag
+        inner = t.kids[0]
+        while inner.kind == "scale":  # ScaledUnit<ScaledUnit<U, M1>, M2> collapses to ScaledUnit<U, M1*M2>
+            m = model.mul(m, inner.mag)
+            inner = inner.kids[0]
+        if not m:
+            return structure(inner, marker)
+        ml, slash = mag_label(m)
+        return {"[%s %s]" % ("(%s)" % ml if slash else ml, product_label(structure(inner, marker))): Fraction(1)}
+    raise AssertionError(k)
+
+
+def _split_top(s, sep):
+    out, depth, cur, i = [], 0, "", 0
+    while i < len(s):
+        ch = s[i]
+        if ch in "([{":
+            depth += 1
+        elif ch in ")]}":
+            depth -= 1
+        if depth == 0 and s.startswith(sep, i):
+            out.append(cur)
+            cur = ""
+            i += len(sep)
+            continue
+        cur += ch
+        i += 1
+    out.append(cur)
+    return out
+
+
+def _match(x, i):
+    """Index of the bracket matching x[i]."""
+    depth = 0
+    for j in range(i, len(x)):
+        depth += x[j] in "([{"
+        depth -= x[j] in ")]}"
+        if depth == 0:
+            return j
+    return -1
+
+
+def _canon_factor(f):
+    if f.startswith("EQUIV{"):
+        j = _match(f, 5)
+        inner = sorted(canon_label(e) for e in _split_top(f[6:j], ", "))
+        return "EQUIV{%s}%s" % (", ".join(inner), f[j + 1:])
+    k = f.find("[")
+    if k >= 0 and (k == 0 or f[:k].isalpha()):
+        j = _match(f, k)
+        body = f[k + 1:j]
+        if body.startswith("("):
+            e = _match(body, 0)
+            mtxt, rest = body[:e + 1], body[e + 2:]
+        else:
+            mtxt, _, rest = body.partition(" ")
+        return "%s[%s %s]%s" % (f[:k], mtxt, canon_label(rest), f[j + 1:])
+    return f
+
+
+def canon_label(s):
+    """Order-agnostic canonical form of a label: the factors of every product side are sorted,
+    recursively inside `[M u]` and `EQUIV{...}`."""
+    def strip_parens(x):
+        if x.startswith("(") and _match(x, 0) == len(x) - 1:
+            return x[1:-1]
+        return x
+
+    sides = _split_top(s, " / ")
+    if len(sides) > 2:
+        return s
+    out = []
+    for sd in sides:
+        had = sd.startswith("(") and _match(sd, 0) == len(sd) - 1
+        fs = sorted(_canon_factor(f) for f in _split_top(strip_parens(sd), " * "))
+        j = " * ".join(fs)
+        out.append("(%s)" % j if had and len(fs) > 1 else j)
+    return " / ".join(out)
